@@ -14,13 +14,23 @@ import (
 
 var generatorSpec = pkgSpec{"generator", []string{"Generator"}}
 
+// diffdbSpec: the staged store (pkg/db/diffdb, components Database and cacheDB) as tables ddb* for
+// Props/C12_ViewsGen.lean: every handle (root and prefix views) shares ONE overlay through its own copy of the pointer
+// Database.cache, so no method may replace that pointer, and every handle owns its snapshot table.
+var diffdbSpec = pkgSpec{"db/diffdb", []string{"Database", "cacheDB"}}
+
 func generatorTables(repo string) string {
+	return extraTables(repo, generatorSpec, "gen", "/- pkg/generator: the block generator (Props/C15_NoCache.lean) -/") +
+		extraTables(repo, diffdbSpec, "ddb", "/- pkg/db/diffdb: the staged store and its prefix views (Props/C12_ViewsGen.lean) -/")
+}
+
+func extraTables(repo string, spec pkgSpec, pre, comment string) string {
 	sf, sm, sw, si, sp, sg, sgw, sc, sa := fields, methods, writes, inits, passes, globals, globalWrites, ctorCalls, allPkgs
 	fields, methods, writes, inits, passes, globals, globalWrites, ctorCalls, allPkgs = nil, nil, nil, nil, nil, nil, nil, nil, nil
 	defer func() {
 		fields, methods, writes, inits, passes, globals, globalWrites, ctorCalls, allPkgs = sf, sm, sw, si, sp, sg, sgw, sc, sa
 	}()
-	if err := scan(repo, generatorSpec); err != nil {
+	if err := scan(repo, spec); err != nil {
 		fmt.Fprintln(os.Stderr, "compgen:", err)
 		os.Exit(1)
 	}
@@ -35,46 +45,46 @@ func generatorTables(repo string) string {
 		}
 		b.WriteString("]\n\n")
 	}
-	b.WriteString("/- pkg/generator: the block generator (Props/C15_NoCache.lean) -/\n\n")
+	b.WriteString(comment + "\n\n")
 	var it []string
-	for _, c := range generatorSpec.components {
-		it = append(it, fmt.Sprintf("(%s, %s)", q(generatorSpec.dir), q(c)))
+	for _, c := range spec.components {
+		it = append(it, fmt.Sprintf("(%s, %s)", q(spec.dir), q(c)))
 	}
-	list("genComponents", "(String × String)", it)
+	list(pre+"Components", "(String × String)", it)
 	it = nil
 	for _, x := range fields {
 		it = append(it, fmt.Sprintf("⟨%s, %s, %s, %s, %s⟩", q(x.pkg), q(x.strct), q(x.name), q(x.typ), q(x.kind)))
 	}
-	list("genFields", "Field", it)
+	list(pre+"Fields", "Field", it)
 	it = nil
 	for _, x := range methods {
 		it = append(it, fmt.Sprintf("⟨%s, %s, %s, %s, %v⟩", q(x.pkg), q(x.strct), q(x.name), q(x.recv), x.ptr))
 	}
-	list("genMethods", "Method", it)
+	list(pre+"Methods", "Method", it)
 	it = nil
 	for _, x := range writes {
 		it = append(it, fmt.Sprintf("⟨%s, %s, %s, %s, %s, %s⟩", q(x.pkg), q(x.strct), q(x.fn), q(x.field), q(x.how), q(x.path)))
 	}
-	list("genWrites", "Write", it)
+	list(pre+"Writes", "Write", it)
 	it = nil
 	for _, x := range inits {
 		it = append(it, fmt.Sprintf("⟨%s, %s, %s, %s, %s⟩", q(x.pkg), q(x.fn), q(x.strct), q(x.field), q(x.value)))
 	}
-	list("genInits", "Init", it)
+	list(pre+"Inits", "Init", it)
 	it = nil
 	for _, x := range passes {
 		it = append(it, fmt.Sprintf("⟨%s, %s, %s, %s, %s, %s, %d⟩", q(x.pkg), q(x.strct), q(x.fn), q(x.field), q(x.kind), q(x.callee), x.index))
 	}
-	list("genPasses", "Pass", it)
+	list(pre+"Passes", "Pass", it)
 	it = nil
 	for _, x := range globals {
 		it = append(it, fmt.Sprintf("⟨%s, %s, %s, %s, %s⟩", q(x.pkg), q(x.name), q(x.typ), q(x.kind), q(x.init)))
 	}
-	list("genGlobals", "Global", it)
+	list(pre+"Globals", "Global", it)
 	it = nil
 	for _, x := range globalWrites {
 		it = append(it, fmt.Sprintf("⟨%s, %s, %s, %s⟩", q(x.pkg), q(x.fn), q(x.name), q(x.how)))
 	}
-	list("genGlobalWrites", "GWrite", it)
+	list(pre+"GlobalWrites", "GWrite", it)
 	return b.String()
 }
